@@ -497,7 +497,7 @@ class Obligation:
     tier: str = "quick"              # minimum tier at which it runs
     max_paths: int = 4000
     time_budget_s: float = 0.0       # wall-clock budget for the exploration (0 = tier default)
-    timeout_ms: int = 10000
+    timeout_ms: int = 20000
     expect: tuple = ()               # clause names that must be evaluated on at least one path
     params: dict = field(default_factory=dict)
     doc: str = ""
